@@ -23,6 +23,23 @@ type modTarget struct {
 }
 
 func (fc *FnCtx) call(st *State, instr ssa.CallInstruction, c *ssa.CallCommon) SV {
+	name := fc.callName[instr]
+	var args []SV
+	if c.IsInvoke() {
+		args = append(args, fc.val(c.Value))
+	}
+	for _, a := range c.Args {
+		args = append(args, fc.val(a))
+	}
+	fc.atCall(st, instr, name, args, false, SV{})
+	res := fc.callInner(st, instr, c)
+	if !st.dead {
+		fc.atCall(st, instr, name, args, true, res)
+	}
+	return res
+}
+
+func (fc *FnCtx) callInner(st *State, instr ssa.CallInstruction, c *ssa.CallCommon) SV {
 	vc := fc.vc
 	resT := instrResultType(instr, c)
 	if c.IsInvoke() {
@@ -67,7 +84,6 @@ func (fc *FnCtx) call(st *State, instr ssa.CallInstruction, c *ssa.CallCommon) S
 		return fc.applyContract(st, instr, cb, nil, args, name, resT, c)
 	}
 	vc.note("callback " + name + " in " + fc.name + ": no contract, result havocked, assumed not to modify corebgp state")
-	fc.atCall(st, instr, name, args, c)
 	return vc.havoc(resT, "cb_"+name, st.alloc)
 }
 
@@ -312,9 +328,6 @@ func (fc *FnCtx) applyContract(st *State, instr ssa.CallInstruction, c *Contract
 		vc.safeEval(fmt.Sprintf("%s:%d requires", r.File, r.Line), func() {
 			vc.oblige(st, "requires", label, site+":"+label, pos, env.evalBool(r.E))
 		})
-	}
-	if instr != nil {
-		fc.atCall(st, instr, calleeName, args, cc)
 	}
 	// frame: havoc what the callee may modify
 	var targets []modTarget
@@ -580,14 +593,13 @@ func (fc *FnCtx) frameCheckTarget(st *State, t modTarget, instr ssa.CallInstruct
 
 // ---------- at-call anchors ----------
 
-func (fc *FnCtx) atCall(st *State, instr ssa.CallInstruction, name string, args []SV, cc *ssa.CallCommon) {
-	root := fc
-	if root.contract == nil || instr == nil {
+func (fc *FnCtx) atCall(st *State, instr ssa.CallInstruction, name string, args []SV, after bool, res SV) {
+	if fc.contract == nil || instr == nil {
 		return
 	}
 	ord := fc.callOrd[instr]
-	for _, a := range root.contract.Ats {
-		if a.Kind != "call" || a.Target != name || (a.Ord >= 0 && a.Ord != ord) {
+	for _, a := range fc.contract.Ats {
+		if a.Kind != "call" || a.Target != name || (a.Ord >= 0 && a.Ord != ord) || a.After != after {
 			continue
 		}
 		a := a
@@ -596,20 +608,61 @@ func (fc *FnCtx) atCall(st *State, instr ssa.CallInstruction, name string, args 
 		for i, v := range args {
 			env.vars[fmt.Sprintf("arg%d", i)] = v
 		}
+		if after {
+			env.vars["result"] = res
+			if tup, ok := res.Typ.(*types.Tuple); ok {
+				off := 0
+				for i := 0; i < tup.Len(); i++ {
+					n := len(fc.e.shape(tup.At(i).Type()).Leaves)
+					env.vars[fmt.Sprintf("result%d", i)] = SV{Typ: tup.At(i).Type(), T: res.T[off : off+n]}
+					off += n
+				}
+			}
+		}
 		label := a.C.Label
 		if label == "" {
 			label = "at"
 		}
 		fc.vc.safeEval(fmt.Sprintf("%s:%d at call", a.C.File, a.C.Line), func() {
-			t := env.evalBool(a.C.E)
-			if a.What == "assume" {
+			switch a.What {
+			case "set":
+				fc.ghostAssign(st, env, a.SetLHS, a.C.E, instr)
+			case "assume":
+				t := env.evalBool(a.C.E)
 				fc.vc.assume(st, t)
 				fc.vc.note(fmt.Sprintf("ASSUME at call %s#%d in %s: %s", name, ord, fc.name, a.C.Src))
-			} else {
+			default:
+				t := env.evalBool(a.C.E)
 				fc.vc.oblige(st, "assert", label, fmt.Sprintf("at call %s#%d:%s", name, ord, label), fc.e.pos(instr.Pos()), t)
 			}
 		})
 	}
+}
+
+// ghostAssign executes `set lhs = rhs` for a ghost variable or ghost field.
+func (fc *FnCtx) ghostAssign(st *State, env *Env, lhs Expr, rhs Expr, instr ssa.Instruction) {
+	v := env.eval(rhs)
+	if len(v.T) != 1 {
+		env.fail("ghost assignment of a compound value")
+	}
+	switch x := lhs.(type) {
+	case *EIdent:
+		gv, ok := fc.unitCtx().ghostVars[x.Name]
+		if !ok {
+			env.fail("set: %s is not a ghost variable", x.Name)
+		}
+		fc.ghostSet(st, "var."+x.Name, gv.Sort, "0", v.T[0])
+		return
+	case *ECall:
+		if g, ok := fc.e.spec.Ghosts[x.Fn]; ok && len(x.Args) == 1 {
+			k := env.eval(x.Args[0])
+			key := k.T[len(k.T)-1]
+			fc.ghostFrame(st, g.Name, key, instr)
+			fc.ghostSet(st, g.Name, g.Sort, key, v.T[0])
+			return
+		}
+	}
+	env.fail("set: unsupported left-hand side %s", exprString(lhs))
 }
 
 // ---------- builtins ----------
@@ -863,7 +916,7 @@ func (fc *FnCtx) goStmt(st *State, x *ssa.Go) {
 		args = append(args, fc.val(a))
 	}
 	name := fc.callName[x]
-	fc.atCall(st, x, name, args, c)
+	fc.atCall(st, x, name, args, false, SV{})
 	fc.vc.note("go statement in " + fc.name + " (" + name + "): spawned function verified as a separate root")
 }
 
@@ -969,6 +1022,5 @@ func (fc *FnCtx) invoke(st *State, instr ssa.CallInstruction, c *ssa.CallCommon,
 		return r
 	}
 	vc.note("interface method " + key + " has no contract: result havocked, no side effects assumed")
-	fc.atCall(st, instr, mname, all, c)
 	return vc.havoc(resT, "inv_"+mname, st.alloc)
 }
